@@ -396,20 +396,25 @@ class SqlImpl(TableImpl):
 
             original_select = query.select
             query.select = []
-            cnt = dict()
+            used_names = set()
             name_in_subquery = dict()
 
-            # resolve potential column name collisions in the subquery
-            for uid in needed_cols.keys():
+            # Resolve potential column name collisions in the subquery. The visible columns keep their names (later verbs
+            # find them by name), a hidden column gets a suffix that no other column of the subquery carries.
+            visible = set(original_select)
+            for uid in [uid for uid in original_select if uid in needed_cols] + [
+                uid for uid in needed_cols.keys() if uid not in visible
+            ]:
                 if uid in sqa_expr:
                     name = sqa_expr[uid].name
-                    if c := cnt.get(name):
-                        name_in_subquery[uid] = f"{name}_{c}"
-                        cnt[name] = c + 1
-                    else:
-                        name_in_subquery[uid] = name
-                        cnt[name] = 1
-                    sqa_expr[uid] = sqa.label(name_in_subquery[uid], sqa_expr[uid])
+                    if name in used_names:
+                        c = 1
+                        while f"{name}_{c}" in used_names:
+                            c += 1
+                        name = f"{name}_{c}"
+                    used_names.add(name)
+                    name_in_subquery[uid] = name
+                    sqa_expr[uid] = sqa.label(name, sqa_expr[uid])
                     query.select.append(uid)
 
             table = cls.compile_query(table, query, sqa_expr).subquery()
